@@ -112,11 +112,11 @@ func TestC10(t *testing.T) {
 		if c.Payload < 0 {
 			c.Payload = 0
 		}
-		if c.Direction == "request" && (c.Sc.Client.Form == FormConnectGet || (c.Sc.Client.Form == FormREST && !strings.Contains(c.Sc.Client.Method, "Put"))) && c.Payload > 512<<10 {
+		if c.Direction == "request" && (c.Sc.Client.Form == FormConnectGet || (c.Sc.Client.Form == FormREST && !strings.Contains(c.Sc.Client.Method, "Put"))) && c.Payload > 256<<10 {
 			// a message that travels in the URL cannot be larger than what an HTTP server lets through
 			// (net/http: 1 MiB of request line and headers by default); the URL is in memory before the
 			// transcoder sees the request
-			c.Payload = 512 << 10 // (8 L for the largest limit drawn)
+			c.Payload = 256 << 10 // (4 L for the largest limit drawn; base64 and JSON quoting add a third)
 		}
 		mi := lookupMethod(benchService, c.Sc.Client.Method)
 		seed := uint64(rapid.IntRange(1, 1<<30).Draw(t, "blob_seed"))
